@@ -290,11 +290,12 @@ type Ctx struct {
 	Trusted    map[string]bool
 	evalDefs   []logEntry // definitions of observation symbols (always included)
 	obsOK      map[string]bool
+	defMemo    map[string]Term
 }
 
 func NewCtx(unit string) *Ctx {
 	return &Ctx{decls: map[string]string{}, strLits: map[string]Term{}, Unit: unit,
-		Abstracted: map[string]int{}, Trusted: map[string]bool{}}
+		Abstracted: map[string]int{}, Trusted: map[string]bool{}, defMemo: map[string]Term{}}
 }
 
 func sanitize(s string) string {
@@ -350,10 +351,26 @@ func (c *Ctx) Define(prefix string, t Term) Term {
 	if c.noDefine > 0 || isAtom(t.S) || len(t.S) < 24 {
 		return t
 	}
+	return c.canon(prefix, t)
+}
+
+// canon names a term, reusing the name of a syntactically identical term
+// (hash-consing: equal terms get equal names, which gives the solvers congruence for free).
+func (c *Ctx) canon(prefix string, t Term) Term {
+	if c.noDefine > 0 || isAtom(t.S) {
+		return t
+	}
+	if v, ok := c.defMemo[t.S]; ok {
+		return v
+	}
 	v := c.Fresh(prefix, t.Sort)
 	c.log = append(c.log, logEntry{text: "(= " + v.S + " " + t.S + ")", def: v.S})
+	c.defMemo[t.S] = v
 	return v
 }
+
+// Canon is canon for callers outside the package's term builders.
+func (c *Ctx) Canon(prefix string, t Term) Term { return c.canon(prefix, t) }
 
 func (c *Ctx) Assume(t Term) {
 	if t.S == "true" || c.noDefine > 0 {
@@ -369,6 +386,9 @@ func (c *Ctx) StrLit(s string) Term {
 	t := c.Declare(fmt.Sprintf("str!%d", len(c.strLits)), SStr)
 	c.strLits[s] = t
 	c.strOrder = append(c.strOrder, s)
+	if l := strings.ToLower(s); l != s && l != "" {
+		c.StrLit(l)
+	}
 	return t
 }
 
@@ -486,6 +506,15 @@ func (c *Ctx) Query(o *Obligation, withModel bool) string {
 	}
 	b.WriteString("(set-logic ALL)\n")
 	b.WriteString(prelude)
+	for _, s := range c.strOrder {
+		t := c.strLits[s]
+		if rel[t.S] {
+			// the lower-case form of a relevant literal is relevant too
+			if l := strings.ToLower(s); l != s && l != "" {
+				rel[c.strLits[l].S] = true
+			}
+		}
+	}
 	for _, name := range c.declOrder {
 		if rel[name] {
 			b.WriteString(c.decls[name])
@@ -509,6 +538,12 @@ func (c *Ctx) Query(o *Obligation, withModel bool) string {
 	}
 	for _, s := range lits {
 		t := c.strLits[s]
+		// strings.ToLower of a literal is computed exactly
+		if l := strings.ToLower(s); l == "" {
+			fmt.Fprintf(&b, "(assert (= (sx.lower %s) sx.empty))\n", t.S)
+		} else {
+			fmt.Fprintf(&b, "(assert (= (sx.lower %s) %s))\n", t.S, c.strLits[l].S)
+		}
 		fmt.Fprintf(&b, "(assert (= (sx.len %s) %s))\n", t.S, BVLitI(64, int64(len(s))).S)
 		if len(s) <= 64 {
 			for k := 0; k < len(s); k++ {
